@@ -835,6 +835,7 @@ var expFlags struct {
 	mirror     bool
 	gadgets    bool
 	inGadget   bool
+	staleRoot  bool
 }
 
 func init() {
@@ -854,6 +855,7 @@ func init() {
 			fs.BoolVar(&expFlags.oddTargets, "oddtargets", false, "dangling refs point at JSON null / an empty object instead (C04 only)")
 			fs.StringVar(&expFlags.site, "site", "", "site of the root document: empty (local file) or http")
 			fs.BoolVar(&expFlags.wholeDocs, "wholedocs", false, "a document whose only top-level element is a structured schema IS that schema (whole-document $refs)")
+			fs.BoolVar(&expFlags.staleRoot, "staleroot", false, "the loader holds an older version of the root document than the one in memory")
 			fs.BoolVar(&expFlags.gadgets, "gadgets", false, "every graph is run once per root gadget (see rootGadgets)")
 			fs.BoolVar(&expFlags.mirror, "mirror", false, "every graph is doubled by its mirror image in the other document (see mirrored)")
 			fs.BoolVar(&expFlags.handBuilt, "handbuilt", false, "the decoded root is turned into a hand-assembled model (schema unions without the Allows flag)")
@@ -984,6 +986,9 @@ func caseFlags() string {
 	}
 	if expFlags.handBuilt {
 		fl = append(fl, "handbuilt")
+	}
+	if expFlags.staleRoot {
+		fl = append(fl, "staleroot")
 	}
 	return strings.Join(fl, ",")
 }
